@@ -151,7 +151,21 @@ ADDENDA3 = {
  "C19": " Round four: the writer tries base58 first when decoding the key, as the client sends it.",
 }
 ADDENDA4 = {
- "C03": " Round five: the signed payload is followed through buffer writes, append chains, make-and-copy at running offsets and helpers with several returns; the guards of the topic piece are evaluated over the three states of the optional topic (absent, empty, non-empty), so signer and verifier are compared on what they append when, not on how.",
+ "C01": " Round five: wherever the remaining depth has been computed and the segment depth keeps its value, the branch taken says remaining >= segment size; the all-links rule is decided where the per-publisher sync routine is finally called, through option structs and parameter objects.",
+ "C03": " Round five: the signed payload is followed through buffer writes, append chains, make-and-copy at running offsets and helpers with several returns; the guards of the topic piece are evaluated over the three states of the optional topic (absent, empty, non-empty), so signer and verifier are compared on what they append when, not on how. When the entry test and the client construction are one routine, V4 is decided at the factory call: ID tested non-empty, and another ID adopted only where the ID so far (starting as the caller's) was empty.",
+ "C07": " Round five: a may-block step on a read path is about the provider being read (no lookup of another provider through a routine that can wait); the standard maps package's writers count as writes of published maps.",
+ "C08": " Round five: the per-publisher lock is not taken inside the segment loop (one critical section per sync).",
+ "C09": " Round five: a duplicate filter delegating to golang-lru tests membership with Get (the refreshing operation) on the key and adds on the miss edge (library trusted for eviction).",
+ "C10": " Round five: byte strings are read with io.ReadFull, never a single Read.",
+ "C11": " Round five: fixed-size scratch arrays hold the varints written into them one after the other (10 bytes each; positive example embedded).",
+ "C12": " Round five: the store client does not set Accept-Encoding by hand (positive example embedded).",
+ "C13": " Round five: ToNode hands out the representation-level node of the wrapped value.",
+ "C14": " Round five: the CID notified is the root CID the per-publisher routine was given (read back from a parameter object only if the routine cannot have written that field).",
+ "C15": " Round five: the receiver's Close closes its done channel on every path that marks it closed (the watcher's exit depends on it); Done on every path of the registered goroutine, deferred or explicit.",
+ "C16": " Round five: the watcher closes the channel Close waits on, on every exit; Close closes done on every path that marks the receiver closed.",
+ "C17": " Round five: the synchronous find wrapper appends every result it receives, unconditionally.",
+ "C18": " Round five: the ingest constructor seals its arguments as given; a reader that consumes into its own record compares the sealed payload type with the record's codec.",
+ "C20": " Round five: address-list equality answers 'equal' only after both sorts, or in the empty / single-element case.",
 }
 for _pid, _extra in ADDENDA4.items():
     ADDENDA3[_pid] = ADDENDA3.get(_pid, "") + _extra
